@@ -48,6 +48,9 @@ pub enum Ev {
     /// mouse wheel (the real event reader maps it to k / j)
     ScrollUp,
     ScrollDown,
+    /// the system clock is stepped (NTP correction, suspend/resume, operator):
+    /// from now on the wall clock reads true time + this many seconds
+    ClockStep(i32),
 }
 
 #[derive(Clone, Debug, Serialize, Deserialize)]
@@ -157,6 +160,13 @@ impl Scenario for C17 {
         for i in 0..n_keys {
             let at = if typed_ahead && i < 3 { 0 } else { rng.below(span_ns) };
             events.push(TimedEv { at_ns: at, ev: gen_ev(rng, nav_bias) });
+        }
+        // the wall clock is stepped backwards or forwards while rows are displayed
+        if rng.chance(0.15) {
+            for _ in 0..rng.usize(1, 2) {
+                let by = *rng.pick(&[-1i32, -6, -20, -45, -120, -4000, 3, 40, 3000]);
+                events.push(TimedEv { at_ns: rng.below(span_ns), ev: Ev::ClockStep(by) });
+            }
         }
         // scripted: search for something that matches only some aircraft, then navigate
         if rng.chance(0.35) {
@@ -319,7 +329,7 @@ impl Scenario for C17 {
                 "selection range is demanded after update() when it held before update() (rows are recomputed by the draw, not by the handler); a panic is a violation from any reachable state",
                 "the documented key map is the one of main.rs:635-657 / the help line of the table",
             ],
-            fault_kinds: vec!["key_before_first_draw", "resize", "tiny_terminal", "read_error", "lock_hold", "expiry_sweep", "row_aged_out", "mouse_wheel"],
+            fault_kinds: vec!["key_before_first_draw", "resize", "tiny_terminal", "read_error", "lock_hold", "expiry_sweep", "row_aged_out", "mouse_wheel", "clock_step_back", "clock_step_forward"],
             probes: vec![
                 "updates",
                 "draws",
@@ -530,6 +540,14 @@ pub fn spawn_tui(
                         width = *w;
                         sh.borrow_mut().count("resize");
                         Some(ToTui::Resize(*w, *h))
+                    }
+                    Ev::ClockStep(by) => {
+                        exec::set_wall_offset_ns(*by as i64 * 1_000_000_000);
+                        exec::log_u64(0xC10C ^ ((*by as i64 as u64) << 16));
+                        let mut s = sh.borrow_mut();
+                        s.count(if *by < 0 { "clock_step_back" } else { "clock_step_forward" });
+                        s.perturbed = true;
+                        None
                     }
                     other => {
                         if matches!(other, Ev::ScrollUp | Ev::ScrollDown) {
@@ -747,7 +765,16 @@ pub fn spawn_tui(
                         s.count("search_hides_some_rows");
                     }
                     if !in_range(&g, shown) {
+                        // the draw is part of handling the event (same loop turn):
+                        // "afterwards the selected row index is 0 when the table is
+                        // empty and otherwise less than the number of rows"
                         s.count("selection_out_of_range_after_draw");
+                        let n = shown.unwrap_or(g.items.len());
+                        s.set(Violation::new(
+                            "c17.2-selection",
+                            format!("after-draw-of-{}-table", if n == 0 { "empty" } else { "nonempty" }),
+                            format!("after the draw that follows the event the selection is {:?} with {} rows displayed (before the draw: {:?} with {} rows)", g.state.selected(), n, sel_before, before_rows),
+                        ));
                     }
                     let a = terminal.backend().buffer().area;
                     if a.width < 5 || a.height < 4 {
@@ -1166,6 +1193,16 @@ fn seq_step(g: &mut tokio::sync::MutexGuard<'_, Jet1090>, cx: &mut SeqCtx, ev: &
     *shown = rows_on_screen(cx.terminal.backend().buffer());
     if !in_range(g, *shown) {
         *cx.counters.entry("selection_out_of_range_after_draw").or_insert(0) += 1;
+        let n = shown.unwrap_or(g.items.len());
+        cx.viol = Some((
+            Violation::new(
+                "c17.2-selection",
+                format!("after-draw-of-{}-table", if n == 0 { "empty" } else { "nonempty" }),
+                format!("after key {} and the draw that follows it the selection is {:?} with {} rows displayed", what, g.state.selected(), n),
+            ),
+            path.to_vec(),
+        ));
+        return false;
     }
     true
 }
